@@ -741,3 +741,112 @@ func TestC13_ManyEvaluators(t *testing.T) {
 		r.Case(fmt.Sprintf("%d|%d|%d", m, salt, form), m >= 1000, c, fmt.Sprintf("alive:%d", m), fmt.Sprintf("form:%d", form))
 	})
 }
+
+// TestC03_Unreached: "an error in a sub-expression that the short-circuit never reaches is not
+// reported" - nor is the sub-expression evaluated at all. Leaves have one of four outcomes: true,
+// false, error, or PANIC (the caller's value hook panics when it is shown a marker value, so a leaf
+// that reads the marker cannot be evaluated without the caller noticing). The composite follows
+// the same table extended by the fourth outcome: a panic propagates like an error, from the
+// operands that are reached only. After a panic (recovered by the caller) every leaf and the
+// composite are evaluated again by fresh evaluators: nothing of the abandoned evaluation is left.
+func TestC03_Unreached(t *testing.T) {
+	r := rec(t, "C03", c03Rule+"; TestC03_Unreached: trees over leaves of outcome T / F / E / P (the caller's hook panics when the leaf's value is read), depth <= 3; the composite follows the table extended by P, i.e. unreached operands are not evaluated; after a recovered panic fresh evaluators give the table again; non-trivial = a P leaf is present and unreached")
+	rapid.Check(t, func(t *rapid.T) {
+		keys := []string{"a", "b", "c", "d"}
+		outs := make([]byte, len(keys))
+		doc := map[string]interface{}{}
+		for i, k := range keys {
+			outs[i] = "TTFFEP"[rapid.IntRange(0, 5).Draw(t, "out")]
+			switch outs[i] {
+			case 'T':
+				doc[k] = "1"
+			case 'F':
+				doc[k] = "0"
+			case 'E':
+				doc[k] = []interface{}{}
+			default:
+				doc[k] = c06Marker
+			}
+		}
+		const P = ref.Set(99)
+		leafOut := func(k string) ref.Set {
+			switch outs[k[0]-'a'] {
+			case 'T':
+				return ref.T
+			case 'F':
+				return ref.F
+			case 'E':
+				return ref.E
+			}
+			return P
+		}
+		var build func(depth int) (bx.Expr, ref.Set, bool)
+		build = func(depth int) (bx.Expr, ref.Set, bool) {
+			if depth == 0 || rapid.IntRange(0, 3).Draw(t, "leafHere") == 0 {
+				k := keys[rapid.IntRange(0, len(keys)-1).Draw(t, "leaf")]
+				return &bx.Match{Sel: bx.Sel{Parts: []string{k}}, Op: bx.OpEq, Lit: "1"}, leafOut(k), false
+			}
+			switch rapid.IntRange(0, 4).Draw(t, "node") {
+			case 0, 1:
+				l, lo, lu := build(depth - 1)
+				rr, ro, ru := build(depth - 1)
+				if lo == ref.T {
+					return &bx.And{L: l, R: rr}, ro, lu || ru
+				}
+				return &bx.And{L: l, R: rr}, lo, lu || ro == P || ru // the right operand is skipped
+			case 2, 3:
+				l, lo, lu := build(depth - 1)
+				rr, ro, ru := build(depth - 1)
+				if lo == ref.F {
+					return &bx.Or{L: l, R: rr}, ro, lu || ru
+				}
+				return &bx.Or{L: l, R: rr}, lo, lu || ro == P || ru
+			default:
+				x, xo, xu := build(depth - 1)
+				if _, isNot := x.(*bx.Not); isNot {
+					return x, xo, xu
+				}
+				if xo == P {
+					return &bx.Not{X: x}, P, xu
+				}
+				return &bx.Not{X: x}, tblNot(xo), xu
+			}
+		}
+		e, want, skippedPanic := build(rapid.IntRange(1, 3).Draw(t, "depth"))
+		rend := bx.NewRenderer(chooser(t))
+		rend.MaxParen = 1
+		text, _ := rend.Render(e)
+		c := map[string]interface{}{"expr": text, "outcomes_abcd": string(outs)}
+		run := func(tx string) (ref.Set, interface{}) {
+			ev, err := bexpr.CreateEvaluator(tx, bexpr.WithHookFn(c06PanicHook))
+			if err != nil {
+				t.Fatalf("harness: %q rejected: %v", tx, err)
+			}
+			res, eerr, pan := safeEvaluate(ev, doc)
+			if pan != nil {
+				return P, pan
+			}
+			return ref.Of(res, eerr), nil
+		}
+		name := func(s ref.Set) string {
+			if s == P {
+				return "{panic of the hook}"
+			}
+			return s.String()
+		}
+		got, _ := run(text)
+		if got != want {
+			violation(t, "C03", "TestC03_Unreached", c, "%s with leaf outcomes a,b,c,d = %s (P: reading the leaf's value makes the caller's hook panic): got %s, the table over the operands that are reached gives %s", strconv.QuoteToASCII(text), outs, name(got), name(want))
+		}
+		// afterwards: leaves and composite once more, fresh evaluators
+		for _, k := range keys {
+			if g, _ := run(k + " == 1"); g != leafOut(k) {
+				violation(t, "C03", "TestC03_Unreached", c, "after %s was evaluated (outcome %s), the leaf `%s == 1` gives %s, on its own it gives %s", strconv.QuoteToASCII(text), name(got), k, name(g), name(leafOut(k)))
+			}
+		}
+		if g, _ := run(text); g != want {
+			violation(t, "C03", "TestC03_Unreached", c, "%s evaluated a second time gives %s, the first time %s", strconv.QuoteToASCII(text), name(g), name(want))
+		}
+		r.Case(text+"\x00"+string(outs), skippedPanic, c, "outcome:"+name(want), fmt.Sprintf("skipped-panic-leaf:%v", skippedPanic))
+	})
+}
